@@ -44,6 +44,8 @@ pub(crate) struct CallFrame {
     /// beginning of the local stack
     pub stack_offset: u32,
     pub closure: *mut CaoLangClosure,
+    /// the object that owns `closure` (null if the callee is not a closure); keeps it alive
+    pub closure_object: *mut CaoLangObject,
 }
 
 impl RuntimeData {
@@ -298,24 +300,48 @@ impl RuntimeData {
     pub fn gc(&mut self) {
         debug!("• GC");
         // mark all roots for collection
-        let mut progress_tracker = Vec::with_capacity(self.value_stack.len());
-        for val in self.value_stack.iter() {
-            if let Value::Object(mut t) = val {
-                unsafe {
-                    let t = t.as_mut();
-                    t.marker = GcMarker::Gray;
+        let mut progress_tracker: Vec<&mut CaoLangObject> =
+            Vec::with_capacity(self.value_stack.len());
+        // guarded objects are roots: they are not collected, and neither is anything they reference
+        for object in self.object_list.iter_mut() {
+            unsafe {
+                let t = object.as_mut();
+                if matches!(t.marker, GcMarker::Protected) {
                     progress_tracker.push(t);
                 }
             }
         }
+        macro_rules! mark_root {
+            ($ptr: expr) => {
+                if let Some(t) = $ptr.as_mut() {
+                    if matches!(t.marker, GcMarker::White) {
+                        t.marker = GcMarker::Gray;
+                        progress_tracker.push(t);
+                    }
+                }
+            };
+        }
+        for val in self.value_stack.iter() {
+            if let Value::Object(t) = val {
+                unsafe { mark_root!(t.as_ptr()) }
+            }
+        }
         // mark globals
         for val in self.global_vars.iter() {
-            if let Value::Object(mut t) = val {
-                unsafe {
-                    let t = t.as_mut();
-                    t.marker = GcMarker::Gray;
-                    progress_tracker.push(t);
-                }
+            if let Value::Object(t) = val {
+                unsafe { mark_root!(t.as_ptr()) }
+            }
+        }
+        // closures of the active calls
+        for frame in self.call_stack.iter() {
+            unsafe { mark_root!(frame.closure_object) }
+        }
+        // upvalues that still point into the value stack
+        unsafe {
+            let mut upvalue = self.open_upvalues;
+            while let Some(next) = upvalue.as_ref().and_then(|o| o.as_upvalue()).map(|u| u.next) {
+                mark_root!(upvalue);
+                upvalue = next;
             }
         }
 
